@@ -48,6 +48,7 @@ pub fn run(ctx: &mut Ctx, suite: &str) {
         "c12e" => c12::run_emfile(ctx),
         "c13" => c12::run_shutdown(ctx),
         "c13e" => c12::run_shutdown_emfile(ctx),
+        "c13p" => c12::run_permit(ctx),
         "c10r" => c12::run_upload_revoked(ctx),
         "c20w" => c04::run_c20w(ctx),
         "c01l" => c04::run_c01l(ctx),
@@ -90,6 +91,7 @@ pub fn replay(ctx: &mut Ctx, tag: &str, args: &[&str]) {
         "c12e" => c12::case_emfile(ctx, args[0], args[1], args.get(2).copied().unwrap_or("live"), args.get(3).copied().unwrap_or("250")),
         "c12b" => c12::case_tokens_big(ctx, args[0], args[1]),
         "c13e" => c12::case_shutdown_emfile(ctx, args[0], args[1]),
+        "c13p" => c12::case_permit(ctx, args[0], args[1]),
         "c13" => c12::case_shutdown(ctx, args[0], args[1], args[2]),
         "c08s" => c12::case_stall(ctx, args[0]),
         "c19s" => c19::case_set(ctx, args[0], args[1]),
